@@ -24,6 +24,7 @@ import (
 	"strconv"
 	"strings"
 	"sync"
+	"sync/atomic"
 	"time"
 
 	"github.com/aptpod/iscp-go/encoding"
@@ -41,7 +42,42 @@ import (
 	"verif/internal/rng"
 )
 
-var wd = 4 * time.Second // watchdog for every library call and every awaited effect (VERIF_WD_MS overrides: mutation self-tests)
+// Watchdog for every wait of the harness (library calls, awaited effects, setup, teardown): nothing
+// waits unboundedly.  It starts at wdBase and shrinks to 300 ms once three waits have expired in
+// one run: a change that makes the library hang must not turn the run into hundreds of full-length
+// waits (every expiry is already a direct violation of its case, and that case is abandoned).
+var wdBase = 4 * time.Second // VERIF_WD_MS overrides
+var wdExpired int32
+
+func wd() time.Duration {
+	if atomic.LoadInt32(&wdExpired) >= 3 && wdBase > 300*time.Millisecond {
+		return 300 * time.Millisecond
+	}
+	return wdBase
+}
+func noteExpiry() { atomic.AddInt32(&wdExpired, 1) }
+
+// waitFor polls cond under the watchdog
+func waitFor(cond func() bool) bool {
+	if broker.WaitFor(wd(), cond) {
+		return true
+	}
+	noteExpiry()
+	return false
+}
+
+// guarded runs f under the watchdog; f keeps running (leaked) when it expires
+func guarded(f func()) bool {
+	done := make(chan struct{})
+	go func() { defer close(done); f() }()
+	select {
+	case <-done:
+		return true
+	case <-time.After(wd()):
+		noteExpiry()
+		return false
+	}
+}
 
 const sigF15 = "F15:wrong-typed-response"
 
@@ -387,6 +423,7 @@ func waitDone(c *caller, d time.Duration) bool {
 	case <-c.done:
 		return true
 	case <-time.After(d):
+		noteExpiry()
 		return false
 	}
 }
@@ -424,11 +461,12 @@ func runCase(c *caseIn) (res result) {
 		select {
 		case err := <-errCh:
 			if err != nil {
-				res.direct = "harness: connect failed: " + err.Error()
+				res.direct = "connection setup failed: " + err.Error()
 				return
 			}
-		case <-time.After(wd):
-			res.direct = "harness: connect blocked"
+		case <-time.After(wd()):
+			noteExpiry()
+			res.direct = "Blocked: iscp.Connect did not return within the watchdog"
 			return
 		}
 		a = connAPI{conn}
@@ -464,11 +502,12 @@ func runCase(c *caseIn) (res result) {
 		select {
 		case err := <-errCh:
 			if err != nil {
-				res.direct = "harness: connect failed: " + err.Error()
+				res.direct = "connection setup failed: " + err.Error()
 				return
 			}
-		case <-time.After(wd):
-			res.direct = "harness: connect blocked"
+		case <-time.After(wd()):
+			noteExpiry()
+			res.direct = "Blocked: wire.Connect did not return within the watchdog"
 			return
 		}
 		a = wireAPI{wc}
@@ -477,9 +516,10 @@ func runCase(c *caseIn) (res result) {
 		}
 	}
 	// the keepalive loop sends its first ping at once: wait for it so that it does not race the script
-	if !broker.WaitFor(wd, func() bool { e.mu.Lock(); defer e.mu.Unlock(); return e.npings >= 1 }) {
-		res.direct = "harness: first keepalive ping never arrived"
-		a.close()
+	closeBg := func() bool { return guarded(a.close) }
+	if !waitFor(func() bool { e.mu.Lock(); defer e.mu.Unlock(); return e.npings >= 1 }) {
+		res.direct = "Blocked: the first keepalive ping never reached the broker within the watchdog"
+		closeBg()
 		return
 	}
 	if c.Mode == "wrongpong" {
@@ -488,16 +528,21 @@ func runCase(c *caseIn) (res result) {
 		select {
 		case <-a.(wireAPI).c.Closed():
 			res.direct = "closed"
-		case <-time.After(wd):
+		case <-time.After(wd()):
 			res.direct = "not-closed"
 		}
-		a.close()
+		closeBg()
 		return
 	}
 
 	var directs []string
 	inflight, maxInflight := 0, 0
+	blocked := false // a wait of this case expired: the rest of the script is abandoned
 	for si, st := range c.Steps {
+		if blocked {
+			directs = append(directs, fmt.Sprintf("script abandoned at step %d of %d", si, len(c.Steps)))
+			break
+		}
 		if c.Ping {
 			// let keepalive pings (same id generator) fall between the steps
 			time.Sleep(time.Duration(150+(si*137)%400) * time.Microsecond)
@@ -507,7 +552,7 @@ func runCase(c *caseIn) (res result) {
 			for _, t := range st.Callers {
 				e.startCaller(a, t)
 			}
-			ok := broker.WaitFor(wd, func() bool {
+			ok := waitFor(func() bool {
 				e.mu.Lock()
 				defer e.mu.Unlock()
 				for _, t := range st.Callers {
@@ -518,7 +563,8 @@ func runCase(c *caseIn) (res result) {
 				return true
 			})
 			if !ok {
-				directs = append(directs, fmt.Sprintf("step %d: a request never reached the broker within the watchdog", si))
+				blocked = true
+				directs = append(directs, fmt.Sprintf("Blocked: step %d: a request never reached the broker within the watchdog", si))
 			}
 			inflight += len(st.Callers)
 			if inflight > maxInflight {
@@ -537,12 +583,13 @@ func runCase(c *caseIn) (res result) {
 			e.mu.Unlock()
 			if err != nil {
 				res.direct = "the broker could not send (the client closed the link?): " + err.Error()
-				a.close()
+				closeBg()
 				return
 			}
 			if !cl.answered && !cl.returned {
-				if !waitDone(cl, wd) {
-					directs = append(directs, fmt.Sprintf("caller %d (request id %d) did not return within the watchdog after its response was sent", st.T, cl.id))
+				if !waitDone(cl, wd()) {
+					blocked = true
+					directs = append(directs, fmt.Sprintf("Blocked: caller %d (request id %d) did not return within the watchdog after its response was sent", st.T, cl.id))
 				} else {
 					cl.returned = true
 					inflight--
@@ -565,7 +612,7 @@ func runCase(c *caseIn) (res result) {
 			e.mu.Unlock()
 			if err != nil {
 				res.direct = "the broker could not send (the client closed the link?): " + err.Error()
-				a.close()
+				closeBg()
 				return
 			}
 			res.special++
@@ -576,8 +623,9 @@ func runCase(c *caseIn) (res result) {
 			e.mu.Unlock()
 			cl.cancel()
 			if !cl.returned {
-				if !waitDone(cl, wd) {
-					directs = append(directs, fmt.Sprintf("caller %d did not return within the watchdog after its context was cancelled", st.T))
+				if !waitDone(cl, wd()) {
+					blocked = true
+					directs = append(directs, fmt.Sprintf("Blocked: caller %d did not return within the watchdog after its context was cancelled", st.T))
 				} else {
 					cl.returned = true
 					inflight--
@@ -622,16 +670,19 @@ func runCase(c *caseIn) (res result) {
 			cl.cancel() // Conn.Close would wait behind a pending SendMetadata holding wireConnMu
 		}
 	}
-	closed := make(chan struct{})
-	go func() { a.close(); close(closed) }()
-	select {
-	case <-closed:
-	case <-time.After(wd):
-		directs = append(directs, "Close did not return within the watchdog")
+	if !closeBg() {
+		directs = append(directs, "Blocked: Close did not return within the watchdog")
 	}
+	deadline := time.Now().Add(wd()) // one watchdog for all callers together
 	for t, cl := range e.callers {
-		if cl.started && !waitDone(cl, wd) {
-			directs = append(directs, fmt.Sprintf("caller %d still blocked %v after the connection was closed", t, wd))
+		if cl.started {
+			left := time.Until(deadline)
+			if left < time.Millisecond {
+				left = time.Millisecond
+			}
+			if !waitDone(cl, left) {
+				directs = append(directs, fmt.Sprintf("Blocked: caller %d still blocked after the connection was closed", t))
+			}
 		}
 		cl.cancel()
 	}
@@ -765,6 +816,107 @@ func genExhaustive(add func(*caseIn, string)) {
 	}
 }
 
+// late answers and noise followed by further traffic on the same connection:
+// "late": n1 requests pending, one of them is cancelled, n2 further requests are issued AFTER the
+// cancellation, then the broker answers the abandoned request (nobody may receive that answer),
+// then everybody else, in two orders; "late-rounds": the same pattern repeated on one connection;
+// "noise": duplicates and unknown ids between rounds of ordinary requests.
+func genScripted(add func(*caseIn, string)) {
+	kind := func(i int) int { return wireKinds[i%len(wireKinds)] }
+	for n1 := 1; n1 <= 3; n1++ {
+		for victim := 0; victim < n1; victim++ {
+			for n2 := 1; n2 <= 3; n2++ {
+				for order := 0; order < 2; order++ {
+					for _, mode := range []string{"wire", "conn"} {
+						if mode == "conn" && (order == 1 || n1+n2 > 4) {
+							continue
+						}
+						c := &caseIn{Mode: mode}
+						for i := 0; i < n1+n2; i++ {
+							if mode == "conn" {
+								c.Kinds = append(c.Kinds, kDownOpen)
+							} else {
+								c.Kinds = append(c.Kinds, kind(i+victim+order))
+							}
+						}
+						c.Steps = append(c.Steps, step{Op: "issue", Callers: seqInts(0, n1)}, step{Op: "cancel", T: victim},
+							step{Op: "issue", Callers: seqInts(n1, n2)})
+						late := step{Op: "respond", T: victim, M: 900 + victim}
+						var others []step
+						for t := 0; t < n1+n2; t++ {
+							if t != victim {
+								others = append(others, step{Op: "respond", T: t, M: 10 + t})
+							}
+						}
+						if order == 1 {
+							for i, j := 0, len(others)-1; i < j; i, j = i+1, j-1 {
+								others[i], others[j] = others[j], others[i]
+							}
+							c.Steps = append(c.Steps, others[0], late)
+							c.Steps = append(c.Steps, others[1:]...)
+						} else {
+							c.Steps = append(c.Steps, late)
+							c.Steps = append(c.Steps, others...)
+						}
+						// further traffic on the same connection
+						t := len(c.Kinds)
+						c.Kinds = append(c.Kinds, c.Kinds[0])
+						c.Steps = append(c.Steps, step{Op: "issue", Callers: []int{t}}, step{Op: "respond", T: t, M: 77})
+						add(c, "late-answer")
+					}
+				}
+			}
+		}
+	}
+	for rounds := 2; rounds <= 5; rounds++ {
+		for variant := 0; variant < 3; variant++ {
+			c := &caseIn{Mode: "wire"}
+			m := 0
+			for k := 0; k < rounds; k++ {
+				a, b := 2*k, 2*k+1
+				c.Kinds = append(c.Kinds, kind(k+variant), kind(k+variant+3))
+				m += 2
+				switch variant {
+				case 0: // late answer while the next request is pending
+					c.Steps = append(c.Steps, step{Op: "issue", Callers: []int{a}}, step{Op: "cancel", T: a}, step{Op: "issue", Callers: []int{b}},
+						step{Op: "respond", T: a, M: 100 + m}, step{Op: "respond", T: b, M: 200 + m})
+				case 1: // late answer while nothing is pending, then the next request
+					c.Steps = append(c.Steps, step{Op: "issue", Callers: []int{a}}, step{Op: "cancel", T: a}, step{Op: "respond", T: a, M: 100 + m},
+						step{Op: "issue", Callers: []int{b}}, step{Op: "respond", T: b, M: 200 + m})
+				default: // the answer never comes for a; b is answered twice
+					c.Steps = append(c.Steps, step{Op: "issue", Callers: []int{a, b}}, step{Op: "cancel", T: a},
+						step{Op: "respond", T: b, M: 200 + m}, step{Op: "respond", T: b, M: 300 + m})
+				}
+			}
+			add(c, "late-rounds")
+		}
+	}
+	for n := 1; n <= 4; n++ {
+		for variant := 0; variant < 4; variant++ {
+			c := &caseIn{Mode: "wire"}
+			m := 0
+			for k := 0; k < n; k++ {
+				t := len(c.Kinds)
+				c.Kinds = append(c.Kinds, kind(k+variant), kind(k+2*variant+1))
+				m += 3
+				c.Steps = append(c.Steps, step{Op: "issue", Callers: []int{t, t + 1}}, step{Op: "respond", T: t + 1, M: m})
+				switch variant {
+				case 0:
+					c.Steps = append(c.Steps, step{Op: "respond", T: t + 1, M: 500 + m}) // duplicate while t is pending
+				case 1:
+					c.Steps = append(c.Steps, step{Op: "unknown", IDMode: 0, M: m, Ty: kMeta})
+				case 2:
+					c.Steps = append(c.Steps, step{Op: "unknown", IDMode: 1, M: m, Ty: c.Kinds[t]})
+				default:
+					c.Steps = append(c.Steps, step{Op: "respond", T: t + 1, M: 500 + m}, step{Op: "unknown", IDMode: 0, M: m, Ty: kPing})
+				}
+				c.Steps = append(c.Steps, step{Op: "respond", T: t, M: m + 1})
+			}
+			add(c, "noise-then-traffic")
+		}
+	}
+}
+
 func genRandom(r *rng.R, mode string, ping bool, wrong bool) *caseIn {
 	c := &caseIn{Mode: mode, Ping: ping, Slow: r.Chance(1, 4)}
 	n := 5 + r.Intn(12)
@@ -892,7 +1044,7 @@ func main() {
 	child := flag.String("child", "", "internal: run a scenario expected to kill the process")
 	flag.Parse()
 	if v, err := strconv.Atoi(os.Getenv("VERIF_WD_MS")); err == nil && v > 0 {
-		wd = time.Duration(v) * time.Millisecond
+		wdBase = time.Duration(v) * time.Millisecond
 	}
 	if *child == "wrongpong" {
 		wrongPongChild()
@@ -928,6 +1080,7 @@ func main() {
 			nrand, nping, nconn, nwrong = 2500, 600, 600, 400
 		}
 		genExhaustive(add)
+		genScripted(add)
 		for i := 0; i < nrand; i++ {
 			add(genRandom(r.Fork(), "wire", false, false), "random-wire")
 		}
@@ -973,7 +1126,7 @@ func main() {
 				var err error
 				select {
 				case err = <-done:
-				case <-time.After(20*time.Second + 2*wd):
+				case <-time.After(20*time.Second + 2*wdBase):
 					cmd.Process.Kill()
 					err = fmt.Errorf("child timed out")
 				}
@@ -998,10 +1151,6 @@ func main() {
 				}
 			} else {
 				res := runCase(j.c)
-				if strings.HasPrefix(res.direct, "harness:") {
-					fmt.Fprintln(os.Stderr, res.direct)
-					os.Exit(3)
-				}
 				if res.term == "" { // the case was abandoned (direct violation): judge an empty history
 					res.term = "mkWireCase [] [] []"
 				}
@@ -1022,7 +1171,7 @@ func main() {
 			w.Count("sig:" + cs.Sig)
 		}
 	}
-	rule := "exhaustive: n<=4 concurrent requests of mixed kinds, every permutation of the answers x {plain, last-answered caller cancelled first with a late answer, every answer duplicated with another marker}; random: 5-16 concurrent requests (wire.ClientConn directly: upstream open/resume/close, downstream open/resume/close, metadata; through iscp.Conn: OpenDownstream xN + one OpenUpstream/SendBaseTime) issued in 1-3 groups, answers in random order with per-answer markers, duplicates of answered ids, odd / far / not-yet-issued ids, cancellations with and without a late answer, optionally keepalive pings every millisecond on the same id generator; wrongtype: answers of another message type (any of 10 tags, a ConnectResponse and a request message among them) bearing a pending id - the caller must get the malformed-message error and nobody else anything (F15, repaired); wrongtype-pong: an UpstreamCloseResponse bearing the id of the library's keepalive ping, in a child process - the process must survive and the keepalive loop close the connection. non-trivial = >=3 requests in flight at once and at least one cancellation or unknown id; distinct = distinct Coq case terms"
+	rule := "exhaustive: n<=4 concurrent requests of mixed kinds, every permutation of the answers x {plain, last-answered caller cancelled first with a late answer, every answer duplicated with another marker}; late-answer / late-rounds: a request is cancelled, further requests are issued, then the abandoned request is answered (before, between and after the other answers; repeated up to 5 rounds on one connection); noise-then-traffic: duplicates and unknown ids while another request is pending, followed by further rounds on the same connection; random: 5-16 concurrent requests (wire.ClientConn directly: upstream open/resume/close, downstream open/resume/close, metadata; through iscp.Conn: OpenDownstream xN + one OpenUpstream/SendBaseTime) issued in 1-3 groups, answers in random order with per-answer markers, duplicates of answered ids, odd / far / not-yet-issued ids, cancellations with and without a late answer, optionally keepalive pings every millisecond on the same id generator; wrongtype: answers of another message type (any of 10 tags, a ConnectResponse and a request message among them) bearing a pending id - the caller must get the malformed-message error and nobody else anything (F15, repaired); wrongtype-pong: an UpstreamCloseResponse bearing the id of the library's keepalive ping, in a child process - the process must survive and the keepalive loop close the connection. non-trivial = >=3 requests in flight at once and at least one cancellation or unknown id; distinct = distinct Coq case terms"
 	if err := w.Flush(*seed, *tier, rule, false, nil); err != nil {
 		fmt.Fprintln(os.Stderr, err)
 		os.Exit(2)
